@@ -206,7 +206,7 @@ class PathState:
             for a in args:
                 r = root_mut_local(a) if not is_transparent(c.callee) else None
                 if r is not None:
-                    self.env[r] = ('mutated', c.callee, b, self.env.get(r))
+                    self.env[r] = ('mutated', c.callee, b, self.env.get(r), rargs)
             self.assign(c.dest, res)
         elif k == 'switch' and next_block is not None:
             d = self.operand(t['discr'])
